@@ -602,7 +602,44 @@ def _retag_lines(ot, pos, block, fc, origins):
 # unit assembly
 
 
-def build_unit(unit_path, canary=None, mutate=None):
+def locate_helper(unit_name, name, owner=None):
+    """find a fn / const called `name` in the source files this unit extracts from"""
+    unit = json.load(open(os.path.join(VERIF, 'units', unit_name + '.json')))
+
+    def expand(ps):
+        out = []
+        for q in ps:
+            if 'use' in q:
+                out.extend(expand(json.load(open(os.path.join(VERIF, q['use'])))['parts']))
+            else:
+                out.append(q)
+        return out
+    parts = expand(unit['parts'])
+    files = []
+    for q in parts:
+        if 'file' in q and q['file'] not in files and ('impl' in q or 'fn' in q):
+            files.append(q['file'])
+    for f in files:
+        try:
+            src = Source(f)
+        except Undecided:
+            continue
+        depth = src.depth_map()
+        toks = src.toks
+        # free fn / const at depth 0
+        for i in range(len(toks) - 1):
+            if depth[i] == 0 and toks[i].kind == 'ident' and toks[i].text in ('fn', 'const') and toks[i + 1].text == name:
+                return {'kind': toks[i].text, 'file': f, 'impl': None, 'name': name}
+        for b in src.impl_blocks():
+            if b[4]:
+                continue
+            for i in range(b[2], b[3]):
+                if depth[i] == 1 and toks[i].kind == 'ident' and toks[i].text in ('fn', 'const') and toks[i + 1].text == name:
+                    return {'kind': toks[i].text, 'file': f, 'impl': b[0], 'name': name}
+    return None
+
+
+def build_unit(unit_path, canary=None, mutate=None, added=()):
     """Returns dict: text, line_origins (list of str per line), functions (info), contracts"""
     unit = json.load(open(unit_path))
     origins = Origins()
@@ -633,7 +670,25 @@ def build_unit(unit_path, canary=None, mutate=None):
                 out.append(q)
         return out
 
-    for p in expand(unit['parts']):
+    all_parts = expand(unit['parts'])
+    # helper items discovered by the runner: put them next to the part that extracts from the same impl/file
+    for a in added:
+        placed = False
+        for q in all_parts:
+            if a['impl'] and q.get('impl') == a['impl'] and q.get('file') == a['file']:
+                if a['kind'] == 'fn':
+                    q.setdefault('fns', []).append(a['name'])
+                else:
+                    q.setdefault('consts', []).append(a['name'])
+                placed = True
+                break
+        if not placed:
+            idx = max([i for i, q in enumerate(all_parts) if q.get('file') == a['file']] + [len(all_parts) - 2])
+            if a['impl'] is None and a['kind'] == 'fn':
+                all_parts.insert(idx + 1, {'fn': a['name'], 'file': a['file']})
+            elif a['impl'] is None:
+                all_parts.insert(idx + 1, {'item': 'const', 'file': a['file'], 'name': a['name'], 'map': []})
+    for p in all_parts:
         if 'include' in p:
             add_plain(open(os.path.join(VERIF, p['include']), encoding='utf-8').read(), 'verif:' + p['include'])
         elif 'raw' in p:
